@@ -6,11 +6,13 @@ Each model area contributes a handler `List String → Option String` (none = no
 import PrqlModel.Drv.Util
 import PrqlModel.Drv.Target
 import PrqlModel.Drv.Rel
+import PrqlModel.Drv.Lex
 namespace Drv
 
 def handlers : List (List String → Option String) := [
   Drv.Target.handle,
-  Drv.Rel.handle
+  Drv.Rel.handle,
+  Drv.Lex.handle
 ]
 
 def handle (fields : List String) : String :=
